@@ -66,6 +66,9 @@ ASSUMES = [
     "and, at abort(), a snapshot: mailbox size, worker tasks in flight, whether the runner's last wait carried a wake-up "
     "deadline = its timer heap was non-empty, the broker state rebuilt from the ticks); it forwards every call unchanged",
     "workflow timeout=None (the per-run TickTimeout is re-armed on reload by design and is not 'work')",
+    "ob_inproc_slow_store_write: the store is vlib.h_idle.make_slow_store, an ENVIRONMENT STUB for a store with I/O latency "
+    "(Postgres / agent-data): MemoryWorkflowStore in which ONE update_handler_status call, chosen by the solver, takes 1..LATMAX "
+    "virtual seconds and takes effect either before or after that wait; all other store calls return at once",
     "'processed' = the step that consumes the event ran with it exactly once and its effect is in the final result",
     "tooling: logging disabled; under CrossHair repr() of concrete scalars is native, "
     "workflows.utils.get_steps_from_instance/_class run untraced, CrossHair's contract enforcement and gc-on-weakref are "
@@ -232,6 +235,43 @@ def ob_inproc_two_sends(T: int, a1: int, a2: int, w: int, early: bool) -> bool:
                   probe_to=max(a1, a2) + w + 1, settle=T + 1)
     bad = _why_inproc(o, sends)
     _debug(f"two_sends T={T} a1={a1} a2={a2} w={w} early={early}", bad)
+    return not bad
+
+
+KSLOW = 8          # status writes of one scenario are numbered 0..; at most 7 happen within these bounds (k = 7: none is slow)
+LATMAX = B(2, 3)   # a slow store write takes 1..LATMAX virtual seconds
+TSLOW = 2          # idle_timeout range of the slow-write obligation
+ASLOW = 3          # send instants 0..ASLOW
+
+
+@obligation(quick=400, thorough=880,
+            partitions_quick=[f"k == {k} and land_first == {lf}" for k in range(KSLOW) for lf in (True, False)],
+            partitions_thorough=[f"k == {k} and land_first == {lf} and T == {t}" for k in range(KSLOW) for lf in (True, False)
+                                 for t in (1, 2)],
+            what="in-process stack over a store with I/O latency (environment stub: the k-th update_handler_status call of the "
+                 "scenario — the sender's idle-stamp clear, the control loop's idle mark or un-mark, a status change — takes lat "
+                 "virtual seconds and lands before or after the wait), two senders at symbolic instants: both events are consumed "
+                 "exactly once and reach the result, never two live control loops, every release happened with empty mailbox, "
+                 "no worker, empty timer heap, idle broker state",
+            bounds={"idle_timeout T": "1..TSLOW", "send instants a1,a2": "0..ASLOW", "slow write index k": "0..KSLOW-1",
+                    "latency": "1..LATMAX", "lands": "before / after the wait", "tie order": "both"})
+def ob_inproc_slow_store_write(T: int, a1: int, a2: int, k: int, lat: int, land_first: bool, early: bool) -> bool:
+    """
+    pre: 1 <= T <= TSLOW and 0 <= a1 <= ASLOW and 0 <= a2 <= ASLOW and 0 <= k < KSLOW and 1 <= lat <= LATMAX
+    post: _
+    """
+    T = concrete(T, 1, TSLOW)
+    a1 = concrete(a1, 0, ASLOW)
+    a2 = concrete(a2, 0, ASLOW)
+    k = concrete(k, 0, KSLOW - 1)
+    lat = concrete(lat, 1, LATMAX)
+    land_first = bool(land_first)
+    early = bool(early)
+    sends = [(a1, P1), (a2, P2)]
+    o = run_stack("inproc", T, sends, lambda: WorkWF(w=0, timeout=None), _mk_event, early=early,
+                  probe_to=max(a1, a2) + 1, settle=T + lat + 1, slow_write=(k, lat, land_first))
+    bad = _why_inproc(o, sends)
+    _debug(f"slow_write T={T} a1={a1} a2={a2} k={k} lat={lat} land_first={land_first} early={early} hit={o['slow_hit']}", bad)
     return not bad
 
 
